@@ -49,6 +49,11 @@ def build():
         g[f'RC{i}'] = _decorate(cls) if i % 2 == 0 else cls
     for i, prio in enumerate([0, 0, 1, -1, 0]):
         g[f'RP{i}'] = _make_processor(f'RP{i}', prio)
+    # a small hierarchy: RPD derives from RP0, RPDD from RPD
+    for name, base in (('RPD', 'RP0'), ('RPDD', 'RPD')):
+        cls = type(name, (g[base],), {})
+        cls.__module__ = __name__
+        g[name] = cls
     from . import sub
     sub.build()
 
